@@ -688,9 +688,7 @@ pub fn explain(stream: &[Ev], verdicts: &[Verdict], obs: &Observed) -> Option<&'
     if verdicts.iter().any(|v| v.key != "scenario-classes") {
         return None;
     }
-    let has_hook_failure =
-        stream.iter().any(|e| matches!(e, Ev::Sc { ev: ScEv::Hook(_, HookEv::Failed(..)), .. }));
-    if !has_hook_failure {
+    {
         // `summarize-retried-no-own-steps`: scenarios without own steps whose retried
         // attempt was followed by a passing one are not counted as passed; nothing else differs.
         let want = recount(stream);
@@ -733,6 +731,8 @@ pub fn explain(stream: &[Ev], verdicts: &[Verdict], obs: &Observed) -> Option<&'
         {
             return Some("summarize-retried-no-own-steps");
         }
+    }
+    if !stream.iter().any(|e| matches!(e, Ev::Sc { ev: ScEv::Hook(_, HookEv::Failed(..)), .. })) {
         return None;
     }
     let nonfinal_hook = stream.iter().any(|e| {
